@@ -1,7 +1,7 @@
 """C15: ComponentRegistry + Library.tags against a dict / tag-set reference model, step by step."""
 import hashlib
 
-NAMES = ["a", "b", "slot"]
+NAMES = ["a", "b", "slot", "provide"]   # two of them are names of protected built-in tags
 _CLASSES = None
 
 
@@ -78,17 +78,31 @@ def run(ch, params, decoded=False):
         protected = bool(ch.draw(2, "protected"))
         lib = Library()
         initial = {}
+        # which of the protected names this private Library actually defines (a name stays protected either way)
+        defined = [("slot", "fill"), ("slot", "fill", "provide"), ("fill",), ()][ch.draw(4, "defined_builtins")] if protected else ()
+        # how the settings reach the registry: lower-case fields, the deprecated upper-case field, both spellings mixed
+        # in one RegistrySettings, or a callable
+        style = ch.draw(4, "settings_style")
         if protected:
-            for t in ("slot", "fill"):
+            for t in defined:
                 fn = (lambda parser, token, _t=t: None)
                 lib.tag(t, fn)
                 initial[t] = fn
             mark_protected_tags(lib)
         fmt = "django_components.component_shorthand_formatter" if shorthand else "django_components.component_formatter"
-        reg = ComponentRegistry(library=lib, settings=RegistrySettings(tag_formatter=fmt))
+        if style == 0:
+            st = RegistrySettings(tag_formatter=fmt)
+        elif style == 1:
+            st = RegistrySettings(TAG_FORMATTER=fmt)
+        elif style == 2:
+            st = RegistrySettings(context_behavior="isolated", TAG_FORMATTER=fmt)
+        else:
+            st = (lambda registry, _fmt=fmt: RegistrySettings(CONTEXT_BEHAVIOR="django", tag_formatter=_fmt))
+        reg = ComponentRegistry(library=lib, settings=st)
         model = Model(shorthand, PROTECTED_TAGS if protected else [], initial.keys())
         regs.append((reg, lib, model, initial))
-        cfg.append({"shorthand": shorthand, "protected": protected})
+        cfg.append({"shorthand": shorthand, "protected": protected, "defined_builtins": list(defined),
+                    "settings_style": ["lower", "UPPER", "mixed", "callable"][style]})
     n_ops = ch.int_between(1, params["max_ops"], "n_ops")
     ops = []
     violations = []
